@@ -66,6 +66,14 @@ pub fn exercise_zone(zr: TimeZoneRef<'_>, budget: usize) {
             if let Ok(l) = DateTime::find_n(&mut buf, f.0, f.1, f.2, f.3, f.4, 60, 5, zr) {
                 let _ = (l.unique(), l.earliest(), l.latest(), l.count(), l.is_exhaustive(), l.data().len());
             }
+            // every accessor of the buffer-backed list for every buffer length from empty to roomy (a result count that exceeds, equals
+            // or falls short of the length), on a buffer that still holds the previous search's entries
+            for n in 0..=buf.len() {
+                if let Ok(l) = DateTime::find_n(&mut buf[..n], f.0, f.1, f.2, f.3, f.4, f.5, 0, zr) {
+                    let _ = (l.unique().map(|d| d.unix_time()), l.earliest().map(|d| d.unix_time()), l.latest().map(|d| d.unix_time()), l.count(), l.is_exhaustive(), l.data().len());
+                    let _ = format!("{l:?}");
+                }
+            }
         }
         for t in types.iter().take(4) {
             if let Ok(d) = DateTime::from_timespec_and_local(u, 0, *t) {
